@@ -26,13 +26,14 @@ type txnCtx struct {
 	// whether reads inside this transaction are compared with the committed model state
 	checkReads bool
 	// whether selections (Range/Count/filters) are compared exactly (single-client only)
-	exact   bool
-	sel     sel  // the model's view of the transaction's selection (exact worlds)
-	first   bool // no filter call has been made yet (a leading Union intersects)
-	inited  bool
-	cleared bool // a filter on a missing column truncated the selection
-	thread  int
-	abort   bool // the body will end in an error
+	exact      bool
+	sel        sel  // the model's view of the transaction's selection (exact worlds)
+	first      bool // no filter call has been made yet (a leading Union intersects)
+	inited     bool
+	cleared    bool // a filter on a missing column truncated the selection
+	thread     int
+	abort      bool // the body will end in an error
+	ttlPending bool
 }
 
 // runTxn executes one transaction program on the primary and mirrors it into the model.
@@ -418,6 +419,15 @@ func (x *txnCtx) checkFresh(r column.Row, off uint32) {
 // inRow performs the reads and writes of an op on the positioned row.
 func (x *txnCtx) inRow(r column.Row, off uint32, op *Op) {
 	x.checkRow(r, off, op.Yield)
+	if x.w.ttl != nil && x.w.viol == nil {
+		// the remaining time-to-live is exactly deadline minus (fake) now
+		if d, ok := x.w.model.Get(off, "expire"); ok && d.U != 0 {
+			got, has := r.TTL()
+			if want := time.Unix(0, int64(d.U)).Sub(time.Now()); !has || got != want {
+				x.w.fail(violation("ttl/remaining", "row %d: Row.TTL()=%v,%v but the committed deadline is %v away", off, got, has, want))
+			}
+		}
+	}
 	x.writes(r, off, op)
 	if len(op.Writes) > 0 {
 		// own reads keep returning the committed values
@@ -432,6 +442,11 @@ func (x *txnCtx) checkRow(r column.Row, off uint32, yield bool) {
 	w := x.w
 	if !x.checkReads || w.viol != nil {
 		return
+	}
+	if !x.exact {
+		if _, live := w.model.Rows[off]; !live {
+			return // deleted by a concurrent commit (workload or cleanup): nothing to assert about a dead offset
+		}
 	}
 	for i, col := range w.model.Cols {
 		gv, gok := readCol(x.txn, r, col, flRow)
@@ -457,6 +472,27 @@ func (x *txnCtx) writes(r column.Row, off uint32, op *Op) {
 		switch {
 		case wr.Delete:
 			x.deleteAt(off)
+			continue
+		case (wr.TTL != 0 || wr.Extend != 0) && w.ttl != nil && w.ttl.inPass && w.avoid["ttl-change-during-pass"]:
+			continue // see the gate in runTTLInBubble
+		case wr.TTL != 0:
+			x.noteTTLWrite()
+			until := r.SetTTL(time.Duration(wr.TTL))
+			if x.deleted(off) {
+				continue
+			}
+			x.mt.add(MOp{Kind: mPut, Off: off, Col: "expire", Val: MVal{U: uint64(until.UnixNano())}})
+			continue
+		case wr.Extend != 0:
+			// Extend on a row without a time-to-live is unspecified: only rows whose committed
+			// deadline is set are extended
+			if d, ok := w.model.Get(off, "expire"); !ok || d.U == 0 || x.deleted(off) {
+				continue
+			}
+			x.noteTTLWrite()
+			x.txn.TTL().Extend(time.Duration(wr.Extend))
+			x.mt.add(MOp{Kind: mMerge, Off: off, Col: "expire", Val: MVal{U: uint64(wr.Extend)}})
+			w.stats.probe("ttl-extended")
 			continue
 		case wr.SetKey:
 			key := wr.Val.Str()
@@ -621,5 +657,13 @@ func (x *txnCtx) avoidWrite(off uint32, col ColSpec, kind mopKind) (mopKind, boo
 func (x *txnCtx) noteFail() {
 	if !x.abort {
 		x.w.noteTrigger("fail-in-commit")
+	}
+}
+
+// noteTTLWrite counts the transaction as holding an uncommitted time-to-live write.
+func (x *txnCtx) noteTTLWrite() {
+	if x.w.ttl != nil && !x.ttlPending {
+		x.ttlPending = true
+		x.w.ttl.pendingTTL++
 	}
 }
